@@ -48,6 +48,15 @@ def cases(ctx):
             en = int(rng.choice([2, 6, 50, 13])) * len(neg) if rng.random() < 0.5 else int(rng.choice([1, 2, 5, 17]))
         else:
             ep, en = gen.easy(rng)
+        if i % 6 == 3:
+            # "any number of easy samples": counts that float64 no longer represents exactly (2**53 and beyond); an extreme target must
+            # still be honoured exactly, since it does not depend on how the intermediate rates round
+            astro = [2 ** 53, 2 ** 53 + 1, 2 ** 53 + 3, 2 ** 54 - 1, 10 ** 16, 10 ** 16 + 1, 10 ** 17, 3 * 10 ** 17, 10 ** 18]
+            if rng.random() < 0.7:
+                ep = int(rng.choice(astro))
+            if rng.random() < 0.7:
+                en = int(rng.choice(astro))
+            kind = kind + "+astro"
         sc, ec = gen.cfg(rng)
         via = str(rng.choice(derive.VIAS))
         if rng.random() < 0.08:  # bounded scores saturated at the ends of [0, 1], seen through the FraudScores subclass
